@@ -118,7 +118,7 @@ fn main() {
         }}
     }
     // scale sentinels: sizes beyond 255 (repeat: powers of two; clamp/once: arbitrary); owned only (parent is 16x16)
-    for (kind, w, h) in [(Kind::Repeat, 256u32, 2u32), (Kind::Repeat, 2, 1024), (Kind::Repeat, 512, 512), (Kind::Clamp, 300, 2), (Kind::Clamp, 3, 257), (Kind::Once, 300, 3), (Kind::Repeat, 131072, 1), (Kind::Repeat, 2, 131072), (Kind::Repeat, 262144, 2), (Kind::Clamp, 70000, 1)] { cases.push((kind, w, h, 0, 0, false, false)); }
+    for (kind, w, h) in [(Kind::Repeat, 256u32, 2u32), (Kind::Repeat, 2, 1024), (Kind::Repeat, 512, 512), (Kind::Clamp, 300, 2), (Kind::Clamp, 3, 257), (Kind::Once, 300, 3), (Kind::Repeat, 32, 64), (Kind::Repeat, 128, 32), (Kind::Clamp, 33, 17), (Kind::Once, 100, 47), (Kind::Clamp, 1000, 3), (Kind::Clamp, 1001, 2), (Kind::Repeat, 131072, 1), (Kind::Repeat, 2, 131072), (Kind::Repeat, 262144, 2), (Kind::Clamp, 70000, 1)] { cases.push((kind, w, h, 0, 0, false, false)); }
     cases.dedup();
     rep.set("texture_cases", cases.len() as u64);
     let nc = cases.len() as u64;
